@@ -444,12 +444,14 @@ def explore(subseed, cfg):
     br = base['result']
     out['runs'] += 1
     out['steps'] += br['steps']
+    for vv in base['violations']:
+        # the fault-free run of a generated (valid) program is itself a case: it must terminate, and if it reports
+        # success the image must be there
+        out['violations'].append({'case': case, 'class': vv, 'group': 'baseline'})
     if failed(br) or br['kind'] != 'exit':
         reason = (br.get('exc') or br.get('stderr') or br['kind'])[:60]
         out['discarded'][f'baseline: {reason}'] = 1
         return _fin(out)
-    for vv in base['violations']:
-        out['violations'].append({'case': case, 'class': vv, 'group': 'baseline'})
     max_steps = br['steps']
 
     def run(c, group):
